@@ -434,3 +434,72 @@ func execNss(a []string) vlib.Res {
 	}
 	return vlib.Res{Impl: impl, Oracle: or, Tags: "nt"}
 }
+
+// fail l3id <dnssec on|off> <client cd t/f> <drop|servfail|refused|ok> <qtype>
+// The identity a failure is filed under is the CLIENT's, on every outcome path
+// of the real resolver handler (Go-error path: every server silent; response
+// path: failure rcodes) and for both settings of the dnssec switch (with
+// dnssec off the handler forces CD=1 on what it sends upstream and must hand
+// the client's bit back). Real edns → cache → resolver pipeline, loopback
+// authorities. Afterwards every retained QUESTION state must be exactly the
+// asked (name, type, class, client CD, shared audience).
+func execL3ID(a []string) vlib.Res {
+	dnssecOn, cd, scenario := a[0] == "on", a[1] == "t", a[2]
+	qtype := uint16(vlib.Atoi(a[3]))
+	w := l3.NewWorld(dnssecOn)
+	defer w.Close()
+	w.AddZone("test.", l3.ZoneOpts{Signed: dnssecOn, PublishDS: dnssecOn})
+	z := w.AddZone("ident.test.", l3.ZoneOpts{Signed: dnssecOn, PublishDS: dnssecOn, NSTTL: 3600})
+	z.Add("www.ident.test. 300 IN A 192.0.2.230", "www.ident.test. 300 IN TXT \"x\"", "www.ident.test. 300 IN AAAA 2001:db8::230")
+	s2 := w.AddServer("ident.test.")
+	for _, srv := range []*l3.Server{z.Servers[0], s2} {
+		switch scenario {
+		case "drop":
+			srv.SetBehaviour(l3.Behaviour{Drop: func(dns.Question, bool) bool { return true }})
+		case "servfail":
+			srv.SetBehaviour(l3.Behaviour{Rcode: func(dns.Question) int { return dns.RcodeServerFailure }})
+		case "refused":
+			srv.SetBehaviour(l3.Behaviour{Rcode: func(dns.Question) int { return dns.RcodeRefused }})
+		}
+	}
+	p := l3.NewPipe(w, l3.PipeOpts{DNSSEC: dnssecOn, Tweak: func(cfg *config.Config) {
+		cfg.Timeout.Duration = 300 * time.Millisecond
+		cfg.QueryTimeout.Duration = 8 * time.Second
+	}})
+	defer p.Close()
+	r := p.Query("www.ident.test.", qtype, l3.Flags{CD: cd, DO: dnssecOn})
+	var qs []string
+	zoneCovered := false
+	for _, e := range cache.VerifC13Entries(cache.VerifC13FailureOf(p.Cache)) {
+		if e.Kind == cache.FailureKindQuestion {
+			q := e.Question
+			qs = append(qs, fmt.Sprintf("%s/%d/%d/%s/%s", strings.ToLower(q.Question.Name), q.Question.Qtype, q.Question.Qclass, vlib.B(q.CD), fmtScope(q.Scope)))
+		} else {
+			zoneCovered = true
+		}
+	}
+	want := fmt.Sprintf("www.ident.test./%d/1/%s/-", qtype, vlib.B(cd))
+	or := "ok"
+	for _, q := range qs {
+		if q != want {
+			or = fmt.Sprintf("FAIL sig=l3id/failure-filed-under-another-identity client=%s filed=%s dnssec=%s path=%s", want, q, a[0], scenario)
+		}
+	}
+	// an independent client with the OTHER CD value: unless a zone failure covers
+	// the name, it never failed and must reach the authorities
+	if scenario != "ok" && !zoneCovered && or == "ok" {
+		u0, t0, _ := w.TotalQueries()
+		r2 := p.Query("www.ident.test.", qtype, l3.Flags{CD: !cd, DO: dnssecOn, Client: "10.9.2.2:4000"})
+		u1, t1, _ := w.TotalQueries()
+		for _, c := range edeOf(r2) {
+			if c == 13 && (u1-u0)+(t1-t0) == 0 {
+				or = "FAIL sig=l3id/other-cd-value-suppressed-by-this-clients-failure"
+			}
+		}
+	}
+	rec := "-"
+	if len(qs) > 0 {
+		rec = strings.Join(qs, ",")
+	}
+	return vlib.Res{Impl: fmt.Sprintf("rcode=%d recorded=%s", rc(r), rec), Oracle: or, Tags: "nt"}
+}
